@@ -12,8 +12,11 @@
    a [_refuted] theorem (a witness found by the harness on the real code, with real SHA-1
    digests, in Witness.v) and a [_guarded] theorem whose guard is the known-finding class. *)
 From HV Require Import Lib.Base C09.Model C09.LimitProofs C09.B32Proofs C09.CoverProofs C09.ShapeProofs
-  C09.SoundProofs C09.TopProofs C09.SpecDec C09.Witness.
+  C09.SoundProofs C09.TopProofs C09.SpecDec C09.Witness C09.OptOutProofs C09.CompleteProofs.
 Open Scope N_scope.
+
+(* a toy hash for the small Examples *)
+Definition exH0 : list byte -> N -> name -> list byte := fun _ _ _ => repeat 7 20.
 
 (* ================================================================================== *)
 (* Iteration limits (RFC 9276 3.2)                                                      *)
@@ -98,7 +101,7 @@ Theorem C09_covering_is_rfc_interval_rfcwrap :
 Proof.
   intros h z salt iter r t Hh Hg Hc.
   assert (gpair h z salt iter (pair_of r)) as Hgp.
-  { destruct Hg as (n & ts & l & base & Hn & Eo & El & _ & Et & _ & _ & (n' & Hn' & En') & Hgap).
+  { destruct Hg as (n & ts & l & base & Hn & Eo & El & _ & Et & _ & _ & _ & (n' & Hn' & En') & Hgap).
     exists n, ts, n'. unfold pair_of. cbn [fst snd]. rewrite Eo. cbn [hd]. repeat split; assumption. }
   split; [exact (covers_rfc h Hh z salt iter _ t Hgp Hc)|exact (covered_absent h Hh z salt iter _ t Hgp Hc)].
 Qed.
@@ -155,6 +158,43 @@ Proof.
   intros Hc. apply nx_claim_b in Hc. vm_compute in Hc. discriminate.
 Qed.
 Print Assumptions C09_nxdomain_wrap_refuted.
+
+(* Completeness for name errors: the RFC 5155 7.2.2 proof taken from the zone's own chain — a
+   record matching the closest encloser, a record whose RFC interval contains the next closer
+   name and one whose interval contains the wildcard at the closest encloser — is accepted, in
+   any order and with any other genuine records of the zone around it (iterations within the soft
+   limit, SOA = apex, QNAME short enough for "*." to be prepended).  Holds for the code as it is
+   and for the RFC wrap-around arm: both accept at least what RFC 5155 covers. *)
+Theorem C09_nxdomain_complete :
+  forall H z salt iter qname qtype answers rs soft hard k rce rnc rwc nnc nwc,
+    let h := H salt iter in
+    let lq := lower_name qname in
+    hash_ok h -> wf_zone z -> rs <> [] -> Forall (genuine h z salt iter) rs ->
+    collision_free h (z_names z ++ relevant lq) ->
+    iter <= soft -> iter <= hard -> z_apex z <> [] -> (enc_len qname + 2 <= 255)%nat ->
+    (1 <= k)%nat -> encloser z lq k -> ~ In (star (skipn k lq)) (z_names z) ->
+    In rce rs -> label_eqb (hd [] (n3_owner rce)) (b32 (h (skipn k lq))) = true ->
+    In rnc rs -> label_eqb (hd [] (n3_owner rnc)) (b32 (h nnc)) = true ->
+    rfc_covers (h nnc) (n3_next rnc) (h (skipn (k - 1) lq)) ->
+    In rwc rs -> label_eqb (hd [] (n3_owner rwc)) (b32 (h nwc)) = true ->
+    rfc_covers (h nwc) (n3_next rwc) (h (star (skipn k lq))) ->
+    verify_nsec3 H qname qtype (Some (z_apex z)) 3 answers rs soft hard = R Secure /\
+    verify_nsec3_gen H wrap_covers_rfc qname qtype (Some (z_apex z)) 3 answers rs soft hard = R Secure.
+Proof.
+  intros H z salt iter qname qtype answers rs soft hard k rce rnc rwc nnc nwc h lq Hh Hz
+         Hne Hg Hcf Hs Hha Hap Hlen Hk Henc Hnw Hce Hlce Hnc Hlnc Hcnc Hwc Hlwc Hcwc.
+  assert (forall (p : pair) t n n',
+    label_eqb (fst p) (b32 (h n)) = true -> n3_next (snd p) = h n' ->
+    bytes_cmp (h n) (h n') <> Lt -> (bytes_cmp (h n) (h t) = Lt \/ bytes_cmp (h t) (h n') = Lt) ->
+    wrap_covers (fst p) (b32 (h t)) (h t) (n3_next (snd p)) = true) as Hcode
+    by first [exact (wrap_v0_complete h Hh)|exact (wrap_rfc_complete h Hh)].
+  split.
+  - exact (top_nx_complete H wrap_covers z salt iter Hh Hz Hcode qname qtype answers rs soft hard k
+             rce rnc rwc nnc nwc Hne Hg Hcf Hs Hha Hap Hlen Hk Henc Hnw Hce Hlce Hnc Hlnc Hcnc Hwc Hlwc Hcwc).
+  - exact (top_nx_complete H wrap_covers_rfc z salt iter Hh Hz (wrap_rfc_complete h Hh) qname qtype answers
+             rs soft hard k rce rnc rwc nnc nwc Hne Hg Hcf Hs Hha Hap Hlen Hk Henc Hnw Hce Hlce Hnc Hlnc Hcnc Hwc Hlwc Hcwc).
+Qed.
+Print Assumptions C09_nxdomain_complete.
 
 (* ================================================================================== *)
 (* NOERROR without answers: NODATA (RFC 5155 8.5-8.7)                                   *)
@@ -316,6 +356,31 @@ Qed.
 Print Assumptions C09_wildcard_answer_zone_refuted.
 
 (* ================================================================================== *)
+(* Opt-Out (RFC 5155 6, 8.6)                                                            *)
+(* ================================================================================== *)
+
+(* "Opt-out only for DS": unless the response is NOERROR and QTYPE is DS, the verdict is the same
+   for every assignment of the Opt-Out flags of the records.  (Read the other way round this is
+   also the known finding C09-optout-cover-secure: a name error or wildcard proof whose covering
+   records have Opt-Out is Secure although such records say nothing about unsigned delegations.) *)
+Theorem C09_optout_consulted_only_for_ds :
+  forall H (newflag : nsec3 -> bool) qname qtype soa rcode answers rs soft hard,
+    qtype <> T_DS \/ rcode <> 0 ->
+    verify_nsec3 H qname qtype soa rcode answers (map (reflag newflag) rs) soft hard =
+    verify_nsec3 H qname qtype soa rcode answers rs soft hard.
+Proof. intros. now apply optout_irrelevant. Qed.
+Print Assumptions C09_optout_consulted_only_for_ds.
+
+(* and for DS it is consulted: the same records with the flags cleared are not accepted
+   (harness corpus W6: DS NODATA below a signed delegation "proved" by an Opt-Out cover alone) *)
+Example C09_optout_ds_example :
+  let rs := [mkN3 [[48; 49]; [122]] 1 true 0 [] (repeat 9 20) [1]] in
+  verify_nsec3 exH0 [[97]; [122]] T_DS (Some [[122]]) 0 [] rs 5 10 = R Secure /\
+  verify_nsec3 exH0 [[97]; [122]] T_DS (Some [[122]]) 0 [] (map (reflag (fun _ => false)) rs) 5 10 = R Bogus /\
+  verify_nsec3 exH0 [[97]; [122]] 1 (Some [[122]]) 0 [] rs 5 10 = R Bogus.
+Proof. vm_compute. auto. Qed.
+
+(* ================================================================================== *)
 (* Zone cuts and DNAME (RFC 5155 8.3, RFC 6840 4.1)                                      *)
 (* ================================================================================== *)
 
@@ -367,6 +432,24 @@ Example C09_nxdomain_example :
   verify_nsec3 GNx.H GNx.q GNx.qt GNx.soa 3 GNx.answers GNx.recs GNx.soft GNx.hard = R Secure /\
   length GNx.recs = 3%nat /\ nx_claimb GNx.z (lower_name GNx.q) = true.
 Proof. cbv zeta. split; [witness_hyps|]. vm_compute. auto. Qed.
+
+(* the hypotheses of the completeness theorem on the same proof: closest encloser c.z. (k = 1)
+   matched by the first record, a.c.z. inside the interval of the record of a.z., *.c.z. inside the
+   interval of the record of b.a.z. *)
+Example C09_nxdomain_complete_example :
+  let h := GNx.H GNx.salt GNx.iter in
+  let lq := lower_name GNx.q in
+  let rce := nth 0 GNx.recs (ex_rec 0) in
+  let rnc := nth 1 GNx.recs (ex_rec 0) in
+  let rwc := nth 2 GNx.recs (ex_rec 0) in
+  GNx.soa = Some (z_apex GNx.z) /\ GNx.iter <= GNx.soft /\ GNx.iter <= GNx.hard /\
+  encloserb GNx.z lq 1 = true /\ inb (star (skipn 1 lq)) (z_names GNx.z) = false /\
+  label_eqb (hd [] (n3_owner rce)) (b32 (h (skipn 1 lq))) = true /\
+  label_eqb (hd [] (n3_owner rnc)) (b32 (h [[97]; [122]])) = true /\
+  rfc_coversb (h [[97]; [122]]) (n3_next rnc) (h (skipn 0 lq)) = true /\
+  label_eqb (hd [] (n3_owner rwc)) (b32 (h [[98]; [97]; [122]])) = true /\
+  rfc_coversb (h [[98]; [97]; [122]]) (n3_next rwc) (h (star (skipn 1 lq))) = true.
+Proof. vm_compute. repeat split; try reflexivity; intros Hx; discriminate. Qed.
 
 Example C09_nodata_example :
   let h := GNodata.H GNodata.salt GNodata.iter in
